@@ -327,6 +327,17 @@ def installer_scan(task):
                 wrong.append("row dated from %s in front of %s (line %d)" % (ast.unparse(ind)[:60], frame.id, n.lineno))
     res.append(dict(id="Backtest._process_data/pre-start-row-has-the-columns-and-first-date-of-the-frame-it-is-glued-to", kind="read", props=["C10", "C04", "C11"], verdict=("refuted" if wrong else ("proved" if glued else "unknown")),
                     backend="ast-scan", secs=0.0, func="bt.backtest.Backtest._process_data", model=dict(sites=wrong) if wrong else None, reason=None if glued else "no pd.concat([row, frame]) found"))
+    # stores into a history series go through `.array[i]` (F1): under the installed pandas (3.x, copy-on-write) `Series.values` is a read-only view and
+    # `X.values[i] = v` raises "assignment destination is read-only" - on whatever path it sits, also one the generated runs do not reach
+    ro = []
+    for q2, fi2 in sorted(prog.functions.items()):
+        for a in ast.walk(fi2.node):
+            tgts = a.targets if isinstance(a, ast.Assign) else ([a.target] if isinstance(a, ast.AugAssign) else [])
+            for tg in tgts:
+                if isinstance(tg, ast.Subscript) and isinstance(tg.value, ast.Attribute) and tg.value.attr == "values":
+                    ro.append("%s line %d: %s = ..." % (q2.split(".", 2)[-1], a.lineno, ast.unparse(tg)[:60]))
+    res.append(dict(id="no-store-through-the-read-only-values-view-of-a-series", kind="read", props=["C10"], verdict="refuted" if ro else "proved", backend="ast-scan", secs=0.0, func="bt.core",
+                    model=dict(sites=ro) if ro else None))
     # the universe handed to the algos is the window up to now, cached per date (`_funiverse` under the key `_last_chk`): every function of the tree
     # that stores a frame into the cache either stores the window cut at self.now under the key self.now, or drops the key (None) so that the next
     # read cuts it again - a full frame left under a live key is served to the algos with every later row in it
